@@ -37,7 +37,11 @@ func TestVF_Adv(t *testing.T) {
 	}
 	rec := vfNewRec(out)
 	defer rec.close()
+	var cur atomic.Value
+	cur.Store("")
+	defer vfWatchdog(rec, func() string { return cur.Load().(string) })()
 	for _, sc := range vfReadLines(in) {
+		cur.Store(vfStr(sc, "id", ""))
 		res := vfBubble(t, func(t *testing.T) { vfRunScenario(t, rec, sc) })
 		if res != "" {
 			// A goroutine left blocked forever (or any other panic) when the
